@@ -3,9 +3,9 @@ use crate::common::*;
 use crate::desc::{self, Toks};
 use crate::gen;
 use monero::blockdata::transaction::*;
-use monero::consensus::encode::{deserialize, serialize};
+use monero::consensus::encode::{deserialize, deserialize_partial, serialize};
 use monero::cryptonote::hash::Hashable;
-use monero::util::ringct::RctType;
+use monero::util::ringct::*;
 use monero::{Block, Transaction};
 
 pub fn exec(t: &[&str]) -> Option<String> {
@@ -18,9 +18,145 @@ pub fn exec(t: &[&str]) -> Option<String> {
         ["c03_block", rest @ ..] => { let mut tk = Toks { t: rest, i: 0 }; let bl = match desc::parse_block(&mut tk) { Some(x) if tk.i == rest.len() => x, _ => return Some("bad-desc".into()) };
             let b = serialize(&bl); let back = deserialize::<Block>(&b).map(|y| y == bl).unwrap_or(false);
             Some(format!("{} {}", hex(&b), if back { "eq" } else { "ne" })) }
+        // bytes, id and prefix hash only (no re-parse flag): also for ill-shaped structs, whose bytes need not parse
+        ["c03_enc", rest @ ..] => { let mut tk = Toks { t: rest, i: 0 }; let tx = match desc::parse_tx(&mut tk) { Some(x) if tk.i == rest.len() => x, _ => return Some("bad-desc".into()) };
+            let b = serialize(&tx);
+            let na = tx.prefix.version.0 != 1 && tx.rct_signatures.sig.is_none();
+            Some(format!("{} {} {}", hex(&b), if na { "na".to_string() } else { hex(&tx.hash().0) }, hex(&tx.prefix.hash().0))) }
+        // embedded parse (what `Block` decoding does with the miner transaction): id, prefix hash, bytes consumed
+        ["c05_txid_partial", h] => Some(match deserialize_partial::<Transaction>(&unhex(h)) { Ok((tx, k)) => format!("ok {} {} {}", hex(&tx.hash().0), hex(&tx.prefix.hash().0), k), Err(_) => "err".into() }),
         ["c05_txid", h] => Some(match deserialize::<Transaction>(&unhex(h)) { Ok(tx) => format!("ok {} {}", hex(&tx.hash().0), hex(&tx.prefix.hash().0)), Err(_) => "err".into() }),
         _ => None,
     }
+}
+
+// ---------------------------------------------------------------------------------------------------------------------------------
+// Deterministic boundary families (independent of the seed except for the random field contents).
+
+fn shape_of(version: u64, nin: usize, ring: usize, nout: usize, rct: RctType, coinbase: bool) -> gen::Shape {
+    gen::Shape { vary_rings: false, version, nin, ring, nout, coinbase_first: coinbase, all_coinbase: coinbase, rct, nbp: 0, extra_len: 2 }
+}
+/// replace the range proofs of a Bulletproof / Bulletproof+ transaction by `n` proofs with `lr` rounds each
+fn with_proofs(r: &mut Rng, mut tx: Transaction, n: usize, lr: usize) -> Transaction {
+    let plus = tx.rct_signatures.sig.as_ref().map(|s| s.rct_type == RctType::BulletproofPlus).unwrap_or(false);
+    if let Some(p) = tx.rct_signatures.p.as_mut() {
+        if plus { p.bulletproofplus = (0..n).map(|_| BulletproofPlus { A: gen::key(r), A1: gen::key(r), B: gen::key(r), r1: gen::key(r), s1: gen::key(r), d1: gen::key(r), L: gen::keys(r, lr), R: gen::keys(r, lr) }).collect(); }
+        else { p.bulletproofs = (0..n).map(|_| Bulletproof { A: gen::key(r), S: gen::key(r), T1: gen::key(r), T2: gen::key(r), taux: gen::key(r), mu: gen::key(r), L: gen::keys(r, lr), R: gen::keys(r, lr), a: gen::key(r), b: gen::key(r), t: gen::key(r) }).collect(); }
+    }
+    tx
+}
+/// Counts at the one-byte / two-byte varint boundary in every count position of the format that goes through its own call site:
+/// Bulletproof count (u32 for type 3, varint for types 4/5), L/R rounds inside a proof, inputs, ring members (key offsets, MLSAG rows,
+/// CLSAG scalars, v1 signature rows), outputs. (label, transaction). `heavy` adds the cases with 128 Borromean range signatures (0.8 MB each).
+pub fn boundary_txs(r: &mut Rng, heavy: bool) -> Vec<(String, Transaction)> {
+    let mut v = vec![];
+    for ty in [RctType::Bulletproof, RctType::Bulletproof2, RctType::Clsag] { for nbp in [127usize, 128, 129, 255, 256, 300] {
+        let tx = gen::tx_of(r, &shape_of(2, 1, 1, 0, ty, true)); v.push((format!("bp-count.rct{}.{}", gen::rct_num(ty), nbp), with_proofs(r, tx, nbp, 0))); } }
+    for ty in [RctType::Bulletproof, RctType::Clsag, RctType::BulletproofPlus] { for lr in [127usize, 128] {
+        let tx = gen::tx_of(r, &shape_of(2, 1, 2, 1, ty, false)); v.push((format!("bp-rounds.rct{}.{}", gen::rct_num(ty), lr), with_proofs(r, tx, 1, lr))); } }
+    for nin in [127usize, 128, 300] {
+        v.push((format!("inputs.v2.null.coinbase.{}", nin), gen::tx_of(r, &shape_of(2, nin, 1, 1, RctType::Null, true))));
+        v.push((format!("inputs.v1.ring1.{}", nin), gen::tx_of(r, &shape_of(1, nin, 1, 1, RctType::Null, false))));
+        for ty in [RctType::Simple, RctType::Bulletproof2, RctType::Clsag, RctType::BulletproofPlus] { if nin <= 128 { v.push((format!("inputs.rct{}.ring1.{}", gen::rct_num(ty), nin), gen::tx_of(r, &shape_of(2, nin, 1, 0, ty, false)))); } }
+        if nin == 128 { v.push(("inputs.rct1.ring2.128".into(), gen::tx_of(r, &shape_of(2, nin, 2, 0, RctType::Full, false)))); }
+    }
+    for ring in [127usize, 128, 300] {
+        v.push((format!("ring.v1.{}", ring), gen::tx_of(r, &shape_of(1, 1, ring, 1, RctType::Null, false))));
+        for ty in [RctType::Full, RctType::Simple, RctType::Bulletproof, RctType::Bulletproof2, RctType::Clsag, RctType::BulletproofPlus] { if ring <= 128 || ty == RctType::Clsag {
+            v.push((format!("ring.rct{}.{}", gen::rct_num(ty), ring), gen::tx_of(r, &shape_of(2, 2, ring, 1, ty, false)))); } }
+    }
+    for nout in [127usize, 128] {
+        v.push((format!("outputs.v1.{}", nout), gen::tx_of(r, &shape_of(1, 1, 1, nout, RctType::Null, false))));
+        for ty in [RctType::Null, RctType::Bulletproof, RctType::Bulletproof2, RctType::Clsag, RctType::BulletproofPlus] { v.push((format!("outputs.rct{}.{}", gen::rct_num(ty), nout), gen::tx_of(r, &shape_of(2, 1, 1, nout, ty, false)))); }
+        if heavy { for ty in [RctType::Full, RctType::Simple] { v.push((format!("outputs.rct{}.{}", gen::rct_num(ty), nout), gen::tx_of(r, &shape_of(2, 1, 2, nout, ty, false)))); } }
+    }
+    v
+}
+
+/// Well-formed transactions with an EMPTY ring somewhere the decoder accepts it: a v1 key input without offsets (its signature row is
+/// empty and must be kept), a Null RingCT transaction whose first input has no offsets, a non-first input without offsets.
+pub fn empty_ring_txs(r: &mut Rng) -> Vec<(String, Transaction)> {
+    let clear = |tx: &mut Transaction, i: usize| { if let TxIn::ToKey { key_offsets, .. } = &mut tx.prefix.inputs[i] { key_offsets.clear(); } };
+    let mut v = vec![];
+    for (nin, which) in [(1usize, 0usize), (2, 0), (2, 1), (3, 1)] { let mut tx = gen::tx_of(r, &shape_of(1, nin, 2, 1, RctType::Null, false)); clear(&mut tx, which); tx.signatures[which].clear(); v.push((format!("empty-ring.v1.in{}of{}", which, nin), tx)); }
+    for (nin, which) in [(1usize, 0usize), (2, 0), (2, 1)] { let mut tx = gen::tx_of(r, &shape_of(2, nin, 2, 1, RctType::Null, false)); clear(&mut tx, which); v.push((format!("empty-ring.null.in{}of{}", which, nin), tx)); }
+    for ty in [RctType::Full, RctType::Simple, RctType::Bulletproof, RctType::Bulletproof2, RctType::Clsag, RctType::BulletproofPlus] { for (nin, which) in [(2usize, 1usize), (3, 2)] {
+        let mut tx = gen::tx_of(r, &shape_of(2, nin, 2, 1, ty, false)); clear(&mut tx, which); v.push((format!("empty-ring.rct{}.in{}of{}", gen::rct_num(ty), which, nin), tx)); } }
+    v
+}
+/// non-Null RingCT transactions whose FIRST input has no offsets: the library serialises them, the decoder must refuse the bytes
+/// (`checked_sub` on the ring size), so no identifier is defined by those bytes
+pub fn first_ring_empty_txs(r: &mut Rng) -> Vec<(String, Transaction)> {
+    let mut v = vec![];
+    for ty in [RctType::Full, RctType::Simple, RctType::Bulletproof, RctType::Bulletproof2, RctType::Clsag, RctType::BulletproofPlus] { for nin in [1usize, 2] {
+        let mut tx = gen::tx_of(r, &shape_of(2, nin, 1, 1, ty, false)); if let TxIn::ToKey { key_offsets, .. } = &mut tx.prefix.inputs[0] { key_offsets.clear(); }
+        v.push((format!("first-ring-empty.rct{}.in{}", gen::rct_num(ty), nin), tx)); } }
+    v
+}
+
+/// One edit of a well-shaped struct that makes an implicit length disagree with its count (what a user of the public fields can build):
+/// the encoder must still write exactly the fields that are there (`C03_enc_eq_spec` holds for EVERY description).
+/// Returns None when the edit does not apply to this transaction (or the result is not describable by `desc`).
+pub fn ill_shaped(tx: &Transaction, edit: usize) -> Option<(&'static str, Transaction)> {
+    fn drop_last<T>(v: &mut Vec<T>) -> Option<()> { v.pop().map(|_| ()) }
+    fn dup_first<T: Clone>(v: &mut Vec<T>) -> Option<()> { let x = v.first()?.clone(); v.push(x); Some(()) }
+    let mut t = tx.clone();
+    if t.prefix.version.0 == 1 {
+        let name = match edit { 0 => { drop_last(&mut t.signatures)?; "v1.drop-row" } 1 => { dup_first(&mut t.signatures)?; "v1.dup-row" }
+            2 => { drop_last(t.signatures.first_mut()?)?; "v1.short-row" } 3 => { dup_first(t.signatures.last_mut()?)?; "v1.long-row" }
+            4 => { t.signatures.insert(0, vec![]); "v1.extra-empty-row" } _ => return None };
+        return Some((name, t));
+    }
+    let ty = gen::rct_num(t.rct_signatures.sig.as_ref()?.rct_type);
+    if ty == 0 { return None; }
+    let sig = t.rct_signatures.sig.as_mut()?; let p = t.rct_signatures.p.as_mut()?;
+    let name = match edit {
+        0 => { drop_last(&mut sig.ecdh_info)?; "rct.drop-ecdh" } 1 => { dup_first(&mut sig.ecdh_info)?; "rct.dup-ecdh" }
+        2 => { drop_last(&mut sig.out_pk)?; "rct.drop-outpk" } 3 => { dup_first(&mut sig.out_pk)?; "rct.dup-outpk" }
+        4 => { if ty == 2 { drop_last(&mut sig.pseudo_outs)? } else if ty >= 3 { drop_last(&mut p.pseudo_outs)? } else { return None }; "rct.drop-pseudo" }
+        5 => { if ty == 2 { dup_first(&mut sig.pseudo_outs)? } else if ty >= 3 { dup_first(&mut p.pseudo_outs)? } else { return None }; "rct.dup-pseudo" }
+        6 => { if ty >= 5 { drop_last(&mut p.Clsags)? } else if ty >= 2 { drop_last(&mut p.MGs)? } else { return None }; "rct.drop-ringsig" }
+        7 => { if ty >= 5 { dup_first(&mut p.Clsags)? } else if ty >= 2 { dup_first(&mut p.MGs)? } else { return None }; "rct.dup-ringsig" }
+        8 => { if ty >= 5 { drop_last(&mut p.Clsags.first_mut()?.s)? } else { drop_last(&mut p.MGs.first_mut()?.ss)? }; "rct.short-ringsig" }
+        9 => { if ty >= 5 { dup_first(&mut p.Clsags.last_mut()?.s)? } else { dup_first(&mut p.MGs.last_mut()?.ss)? }; "rct.long-ringsig" }
+        10 => { if ty <= 2 { drop_last(&mut p.range_sigs)? } else if ty <= 5 { drop_last(&mut p.bulletproofs)? } else { drop_last(&mut p.bulletproofplus)? }; "rct.drop-proof" }
+        11 => { if ty <= 2 { dup_first(&mut p.range_sigs)? } else if ty <= 5 { dup_first(&mut p.bulletproofs)? } else { dup_first(&mut p.bulletproofplus)? }; "rct.dup-proof" }
+        12 => { if ty <= 4 { for m in p.MGs.iter_mut() { for row in m.ss.iter_mut() { row.pop()?; } } } else { return None }; "rct.narrow-mlsag" }
+        _ => return None };
+    Some((name, t))
+}
+pub const N_EDITS: usize = 13;
+
+/// hex literals of the library's own tests (mainnet transactions and blocks: v1, Simple, Bulletproof*, Clsag, Bulletproof+, block 202612)
+pub fn repo_literals() -> (Vec<Vec<u8>>, Vec<Vec<u8>>) {
+    let (mut txs, mut blocks): (Vec<Vec<u8>>, Vec<Vec<u8>>) = (vec![], vec![]);
+    for f in ["/repo/src/blockdata/transaction.rs", "/repo/src/blockdata/block.rs", "/repo/src/consensus/encode.rs", "/repo/tests/blockdata.rs", "/repo/tests/recover_outputs.rs", "/repo/tests/serde.rs"] {
+        let src = match std::fs::read_to_string(f) { Ok(s) => s, Err(_) => continue };
+        for piece in src.split('"') {
+            if piece.len() >= 100 && piece.len() % 2 == 0 && piece.bytes().all(|c| c.is_ascii_hexdigit()) {
+                if let Ok(b) = hex::decode(piece) {
+                    if deserialize::<Transaction>(&b).is_ok() { if !txs.contains(&b) { txs.push(b); } }
+                    else if deserialize::<Block>(&b).is_ok() { if !blocks.contains(&b) { blocks.push(b); } }
+                }
+            }
+        }
+    }
+    (txs, blocks)
+}
+
+/// every `c03_*` description line must have been understood by the library side (three `bad-desc` answers would agree with each other)
+fn described(o: &mut Out, line: String, key: Option<&str>) -> String {
+    let res = match key { Some(k) => o.op_keyed(line.clone(), true, k), None => o.op(line.clone(), true) };
+    o.direct(res != "bad-desc", "C03: a generated description is understood (not bad-desc)", trunc(&line, 300), res.clone(), "bytes …".into());
+    res
+}
+/// a non-minimal / overflowing varint spliced at a random position of the WHOLE string (gen::mutate case 6 only reaches the first 24 bytes)
+fn mutate_deep(r: &mut Rng, b: &[u8]) -> Vec<u8> {
+    let mut bb = b.to_vec(); if bb.is_empty() { return vec![0x80, 0x00]; }
+    let i = r.below(bb.len() as u64) as usize;
+    let v: &[u8] = *r.pick(&[&[0x80u8, 0x00][..], &[0x80, 0x80, 0x00][..], &[0x81, 0x00][..], &[0xff, 0xff, 0xff, 0xff, 0xff, 0xff, 0xff, 0xff, 0xff, 0x01][..], &[0xff, 0xff, 0xff, 0xff, 0xff, 0xff, 0xff, 0xff, 0xff, 0x02][..],
+        &[0x80, 0x80, 0x80, 0x80, 0x80, 0x80, 0x80, 0x80, 0x80, 0x81, 0x01][..], &[0x80, 0x01][..], &[0xff, 0x01][..]]);
+    bb.splice(i..i + 1, v.iter().copied()); bb
 }
 
 fn shapes(r: &mut Rng, it: usize, big: usize) -> gen::Shape {
@@ -38,12 +174,40 @@ pub fn run_c03(o: &mut Out, tier: &str, seed: u64) {
     for it in 0..n + ns {
         let s = if it < ns { sweep[it].clone() } else { shapes(&mut r, it - ns, big) }; let tx = gen::tx_of(&mut r, &s);
         o.stat(&format!("tx.v{}.rct{}.coinbase{}", s.version, if s.version == 1 || s.nin == 0 { -1 } else { gen::rct_num(s.rct) as i32 }, s.all_coinbase || s.coinbase_first));
-        o.op(format!("c03_tx {}", desc::tx_desc(&tx)), true);
+        { let res = o.op(format!("c03_tx {}", desc::tx_desc(&tx)), true); o.direct(res != "bad-desc", "C03: a generated description is understood (not bad-desc)", format!("iteration {}", it), trunc(&res, 40), "bytes …".into()); }
         if it % 6 == 0 { let nh = if it % 60 == 0 { big / 4 } else { r.below(6) as usize }; let b = gen::block(&mut r, nh); o.stat("block"); o.op(format!("c03_block {}", desc::block_desc(&b)), true); }
     }
     // BulletproofPlus proof counts around the one-byte / varint boundary (known deviation at >= 128)
     for nbp in [1usize, 2, 16, 127, 128, 129, 200, 255] { let tx = crate::c02::bpp_tx(nbp); o.op_keyed(format!("c03_tx {}", desc::tx_desc(&tx)), true, &format!("bulletproofplus-count={}", nbp)); }
     o.notes.push("descriptions printed from the library's public struct fields by name; all 7 RingCT types x both versions x coinbase/key inputs x plain/tagged outputs; ring up to 20, up to 20 inputs/outputs (a few with hundreds+ outputs); every case non-trivial".into());
+    let thorough = tier == "thorough";
+    // (2) counts at the one-/two-byte varint boundary in every count position (Bulletproof count of types 3/4/5, L/R rounds, inputs, ring, outputs)
+    for (label, tx) in boundary_txs(&mut r, thorough) { o.stat(&format!("boundary.{}", label.split('.').next().unwrap())); described(o, format!("c03_tx {}", desc::tx_desc(&tx)), Some(&label)); }
+    for nh in [127usize, 128, 300] { let b = gen::block(&mut r, nh); o.stat("boundary.block-hashes"); described(o, format!("c03_block {}", desc::block_desc(&b)), Some(&format!("block-hashes={}", nh))); }
+    // (3) empty rings where the format allows them
+    for (label, tx) in empty_ring_txs(&mut r) { o.stat("empty-ring"); let res = described(o, format!("c03_tx {}", desc::tx_desc(&tx)), Some(&label));
+        o.direct(res.split(' ').nth(1) == Some("eq"), "C03: a transaction with an empty ring (v1 / Null / non-first input) parses back to itself", label.clone(), trunc(&res, 80), "… eq …".into()); }
+    // (3b) first ring empty with a non-Null type: serialised as described, refused by the decoder
+    for (label, tx) in first_ring_empty_txs(&mut r) { o.stat("first-ring-empty"); let res = described(o, format!("c03_enc {}", desc::tx_desc(&tx)), Some(&label));
+        let bytes = res.split(' ').next().unwrap_or("-").to_string(); let id = o.op(format!("c05_txid {}", bytes), false);
+        o.direct(id == "err", "C03: non-Null RingCT bytes whose first input has no ring members are refused by the decoder", label.clone(), trunc(&id, 80), "err".into()); }
+    // (4) ill-shaped structs (one implicit length disagreeing with its count): bytes only, the encoder writes exactly what is there
+    { let sweep = gen::sweep_shapes(); let mut k = 0usize; let step = if thorough { 1 } else { 7 };
+      for (i, s0) in sweep.iter().enumerate() { if i % step != 0 && !(s0.rct == RctType::Full && i % 3 == 0) { continue; } let mut s = s0.clone(); if s.nin > 0 && s.nout == 0 { s.nout = 1; } if s.version == 2 && s.nin > 0 && s.rct != RctType::Null { s.nbp = 1; }
+        let tx = gen::tx_of(&mut r, &s);
+        for e in 0..N_EDITS { if !thorough && (e + k) % 2 == 1 { continue; } if let Some((name, t)) = ill_shaped(&tx, e) { o.stat(&format!("ill-shaped.{}", name)); described(o, format!("c03_enc {}", desc::tx_desc(&t)), Some(name)); } }
+        k += 1; } }
+    // (5) anchoring of the by-the-book layout in chain data: every transaction / block quoted in the library's own tests is described from
+    //     its parsed public fields; the bytes of the description (library, model AND Spec/Wire) must be the original mainnet bytes
+    let (txs, blocks) = repo_literals();
+    o.notes.push(format!("C03: {} mainnet transaction(s) and {} block(s) quoted in /repo's tests re-described and compared with the original bytes", txs.len(), blocks.len()));
+    o.direct(txs.len() >= 5 && !blocks.is_empty(), "C03: the quoted mainnet vectors were found in /repo's tests", "repo_literals".into(), format!("{} txs, {} blocks", txs.len(), blocks.len()), ">= 5 txs, >= 1 block".into());
+    for b in &txs { let tx = deserialize::<Transaction>(b).unwrap(); o.stat(&format!("mainnet.tx.v{}.rct{}", tx.prefix.version.0, tx.rct_signatures.sig.as_ref().map(|s| gen::rct_num(s.rct_type) as i32).unwrap_or(-1)));
+        let res = described(o, format!("c03_tx {}", desc::tx_desc(&tx)), Some("mainnet-tx"));
+        o.direct(res.starts_with(&format!("{} eq ", hex(b))), "C03: the description of a mainnet transaction serialises to the original mainnet bytes", trunc(&hex(b), 200), trunc(&res, 200), "original bytes, eq".into()); }
+    for b in &blocks { let bl = deserialize::<Block>(b).unwrap(); o.stat("mainnet.block");
+        let res = described(o, format!("c03_block {}", desc::block_desc(&bl)), Some("mainnet-block"));
+        o.direct(res == format!("{} eq", hex(b)), "C03: the description of a mainnet block serialises to the original mainnet bytes", trunc(&hex(b), 200), trunc(&res, 200), "original bytes, eq".into()); }
 }
 
 pub fn run_c05(o: &mut Out, tier: &str, seed: u64) {
@@ -64,4 +228,37 @@ pub fn run_c05(o: &mut Out, tier: &str, seed: u64) {
         if let Ok(t2) = deserialize::<Transaction>(&b) { o.direct(t2.hash() == tx.hash(), "C05: id(parse(serialize x)) == id(x)", format!("c05_txid {}", hex(&b)), hex(&t2.hash().0), hex(&tx.hash().0)); }
     }
     o.notes.push("non-trivial = parsable transactions (generated: all types/versions; mutated ones that still parse)".into());
+    let thorough = tier == "thorough";
+    let parsed_version = |b: &[u8]| deserialize::<Transaction>(b).map(|t| t.prefix.version.0.to_string()).unwrap_or_else(|_| "err".into());
+    // (2) versions other than 1 and 2 (the library treats every version != 1 as RingCT), every type, with and without inputs; counted by the PARSED version
+    for version in [0u64, 3, 127, 128, 1 << 32, u64::MAX] { for &rct in gen::RCT_TYPES.iter() { for nin in [0usize, 1, 2] {
+        if nin == 0 && rct != RctType::Null { continue; }
+        let mut s = shape_of(version, nin, 2, 1, rct, false); s.nbp = 1; let tx = gen::tx_of(&mut r, &s); let b = serialize(&tx);
+        let res = o.op(format!("c05_txid {}", hex(&b)), true); o.stat(&format!("id.version.{}.{}", parsed_version(&b), res.split(' ').next().unwrap()));
+        o.direct(res != "err", "C05: a transaction with a version other than 1/2 parses (RingCT layout) and has an identifier", format!("c05_txid {}", trunc(&hex(&b), 300)), res.clone(), "ok …".into());
+        let m = mutate_deep(&mut r, &b); o.op(format!("c05_txid {}", hex(&m)), false); } } }
+    // (3) counts at the varint width boundary (identifiers of large transactions; the BulletproofPlus count byte does not move p or q)
+    for (label, tx) in boundary_txs(&mut r, thorough) { if !thorough && (label.starts_with("bp-count") && !label.ends_with(".128")) { continue; }
+        let b = serialize(&tx); o.stat(&format!("id.boundary.{}", label.split('.').next().unwrap())); let res = o.op_keyed(format!("c05_txid {}", hex(&b)), true, &label);
+        o.direct(res != "err", "C05: the serialisation of a generated well-formed transaction parses (so that its id is defined by its bytes)", label.clone(), trunc(&res, 80), "ok …".into()); }
+    for nbp in [127usize, 128, 255] { let b = serialize(&crate::c02::bpp_tx(nbp)); o.stat("id.boundary.bpp-count"); let res = o.op_keyed(format!("c05_txid {}", hex(&b)), true, &format!("bpp-count={}", nbp));
+        o.direct(res != "err", "C05: the serialisation of a generated well-formed transaction parses (so that its id is defined by its bytes)", format!("bpp_tx({})", nbp), trunc(&res, 80), "ok …".into()); }
+    for (label, tx) in empty_ring_txs(&mut r) { let b = serialize(&tx); o.stat("id.empty-ring"); let res = o.op_keyed(format!("c05_txid {}", hex(&b)), true, &label);
+        o.direct(res != "err", "C05: a transaction with an empty ring (v1 / Null / non-first input) parses and has an identifier", label.clone(), trunc(&res, 80), "ok …".into()); }
+    for (label, tx) in first_ring_empty_txs(&mut r) { let b = serialize(&tx); o.stat("id.first-ring-empty"); let res = o.op_keyed(format!("c05_txid {}", hex(&b)), false, &label);
+        o.direct(res == "err", "C05: non-Null RingCT bytes whose first input has no ring members do not parse (no identifier)", label.clone(), trunc(&res, 80), "err".into()); }
+    // (4) embedded parses: the transaction followed by other bytes (as the miner transaction inside a block), and deep varint splices
+    { let sweep = gen::sweep_shapes(); let n2 = if thorough { 1500 } else { 250 };
+      for it in 0..n2 { let s = if it < sweep.len() && it % 2 == 0 { sweep[it].clone() } else { shapes(&mut r, it, 100) }; let tx = gen::tx_of(&mut r, &s); let b = serialize(&tx);
+        let k = r.range(0, 40) as usize; let mut bs = b.clone(); bs.extend(if r.chance(1, 3) { b[..k.min(b.len())].to_vec() } else { r.bytes(k) });
+        let res = o.op(format!("c05_txid_partial {}", hex(&bs)), true); o.stat("id.partial");
+        o.direct(res == format!("ok {} {} {}", hex(&tx.hash().0), hex(&tx.prefix.hash().0), b.len()), "C05: id of an embedded parse = id of the transaction, consumed = its length", format!("c05_txid_partial {}", trunc(&hex(&bs), 300)), trunc(&res, 200), "ok id prefix-hash len".into());
+        for _ in 0..2 { let m = mutate_deep(&mut r, &b); let res = o.op(format!("c05_txid {}", hex(&m)), false); if res != "err" { o.nontrivial.insert(hex(&m)); o.stat("id.deep-splice.ok"); } else { o.stat("id.deep-splice.err"); } }
+        if it % 5 == 0 { let m = gen::mutate(&mut r, &bs); o.op(format!("c05_txid_partial {}", hex(&m)), false); } } }
+    // (5) mainnet transactions quoted in the library's own tests, and the miner transactions of the quoted blocks as embedded parses
+    let (txs, blocks) = repo_literals();
+    for b in &txs { o.stat("id.mainnet"); o.op_keyed(format!("c05_txid {}", hex(b)), true, "mainnet-tx"); }
+    for b in &blocks { if let Ok(bl) = deserialize::<Block>(b) { let hl = serialize(&bl.header).len(); o.stat("id.mainnet.miner-embedded");
+        let res = o.op_keyed(format!("c05_txid_partial {}", hex(&b[hl..])), true, "mainnet-miner-tx");
+        o.direct(res.starts_with(&format!("ok {} ", hex(&bl.miner_tx.hash().0))), "C05: the miner transaction parsed out of a block has the id of the embedded parse", trunc(&hex(&b[hl..]), 200), trunc(&res, 200), "same id".into()); } }
 }
